@@ -24,6 +24,15 @@ KNOWN = {
 }
 
 HINTS = {
+    'C02': "the timestep handed to next_update in Engine._run_update / run_for (the 'interval' computed from the front and the end time when force_complete cuts it short), Engine._check_complete, the front entry of a process after a quiet poll, a process entering later through _generate/_divide (front created at the current time), two run_for calls without force_complete followed by update(), timesteps larger than the whole run, global_time_precision rounding of front times",
+    'C05': "_StepGraph (add / remove / get_execution_layers, _sequential_steps vs graph nodes), Engine._add_step_path for steps nested in compartments and dependency paths, Engine.run_steps being called at construction and after each batch (and not after passes in which nothing was applied), steps given with is_deriver / legacy derivers mixed with flow steps, a step whose update is empty, Engine._process_update with timestep 0, cached layers after a structural change",
+    'C06': "Store.topology_state / view construction (schema_topology, outer_path, _path dictionaries with several renamed variables, ports wired to a leaf), inverse_topology for '_path' ports and for nested schemas two levels deep, normalize_path use with '..' after a name, glob ports wired through '_path', a port wired to the root (), two ports where one is wired to a sub-store of the other",
+    'C07': "Store.build_topology_views / _topology_view caching, Store.view_values / schema_topology for glob ports with nested sub-schemas and for '_output' ports, when the views are rebuilt (Engine.apply_update's view_expire, Store.apply_update return values for _add/_delete/_move/_divide/_generate nested inside a larger update), states passed to calculate_timestep vs next_update, a process whose port is wired to a store that is deleted and re-created",
+    'C10': "Engine._add_process_path / _add_step_path for entities arriving through _generate/_divide/_move, Engine._delete_path (published dictionaries, process_paths, _step_paths), Engine._remove_deleted_processes and the front, the front entry of a newly created process, Store.get_processes / get_steps / get_topology / get_flow (used to publish), processes nested two compartments deep, a compartment deleted and re-created under the same key at the same instant, _StepGraph.remove",
+    'C11': "the divider functions in vivarium/core/registry.py (divide_split for odd ints / negative ints / floats / tuples, divide_binomial, divide_split_dict ordering, divide_set deep copies), Store.divide_value for branches with a branch-level '_divider' and for dividers given as dicts with 'topology' / 'config', how daughters' initial_state is merged with the divided state (nested branches), process instances and parameters copied for daughters when none are listed, daughters sharing mutable state or schema objects, a second generation",
+    'C17': "vivarium/library/topology.py (get_in with defaults for falsy values, assoc_path with an empty path, update_in creating missing branches, delete_in on the last key of a branch, dict_to_paths / paths_to_dict for empty dicts and single keys, normalize_path, convert_path_style, hierarchy_depth), Store.get_path / path_for / path_to / depth, Store.get_in, paths given as strings vs tuples",
+    'C19': "vivarium/processes/timeline.py (TimelineProcess.__init__ sorting/merging of events and of the 'paths' / time handling, next_update's pop-while-due loop and its comparison with global time, calculate_timestep returning the time to the next event, events at time 0, events after the end of the run), vivarium/core/composition.py add_timeline / the ports it declares for nested variable paths, processes with a time_step that does not divide event times",
+
     'C01': "anything on the path an update takes from next_update to the store: Engine._run_update / _process_update, Defer and its functions, invert_topology for ports wired with '..' or '_path', Engine.apply_update, the list of due updates in run_for and the order in which it is applied, Engine.front entries ('time', 'update') across two run_for calls, an engine with initial_global_time != 0, processes nested in compartments, a process whose update is an empty dict or None",
     'C03': "the scheduler loop of run_for for constant timesteps: the computation of full_step, the bound that keeps the clock from passing waiting processes, what happens when run_for is called with an interval shorter than every timestep, two successive run_for calls with force_complete False then True, an engine with initial_global_time != 0, emit_step different from 1, global_time_precision, Engine.update vs run_for",
     'C04': "Engine._process_state and the state a process started at the same instant receives, Store.view_values / topology views for ports wired through '..' or sharing a sub-store, schema_topology, the application of a batch of updates that finish at the same time (order of the list, a process listed twice), a process deleted by another update of the same batch, three processes with equal timesteps where one is nested in a compartment",
